@@ -864,6 +864,6 @@ META = dict(
         "StartTime); the key set each list writer emits is a subset of the format's keys for its section (frozen in "
         "sa/tables/qua_format.json), a superset of what the reader consumes, with int/float types; EndTime presence "
         "routes holds on both sides; the three sections bind to the same lists; and each key the domain allows a "
-        "document to omit receives its default before it is used and never leaves NaN."),
+        "document to omit receives its default before it is used and never leaves NaN. Keys the format types as a list have list-valued declared defaults; library producers of Quaver lists (sv_normalize, the converters' empty buffers) hand the writer declared columns only, because to_yaml serialises every column (R9); no emitted time is computed from operands that were already truncated to int."),
     not_decided="YAML quoting (PyYAML trusted), the <1 ms int() truncation bound, authoritative default of an omitted Multiplier/Bpm",
 )
